@@ -372,6 +372,8 @@ type unroller struct {
 	consts     map[*term.T]*term.T // never-written cells -> initial value
 	sch        []*term.T
 	exactWake  []*term.T
+	promptLib  []*term.T
+	porOn      *term.T
 	k          int
 	stutter    int
 	asserted   []*term.T
@@ -466,6 +468,7 @@ func (b *bmcSys) unrollAndSolve() {
 	f := b.f
 	s := b.s
 	u := &unroller{b: b, cur: map[*term.T]*term.T{}, consts: map[*term.T]*term.T{}, finBad: map[string][]*term.T{}, invBad: map[string][]*term.T{}}
+	u.porOn = f.Var("por.on", term.Bool)
 	// fail / cover flags
 	labels := map[string]bool{}
 	covers := map[string]bool{}
@@ -620,6 +623,7 @@ func (b *bmcSys) unrollAndSolve() {
 			t   int
 			val *term.T
 		}
+		var libEnabled, envChosen []*term.T
 		writes := map[*term.T][]wr{}
 		dead := map[int]bool{}
 		for _, t := range b.trans {
@@ -636,6 +640,11 @@ func (b *bmcSys) unrollAndSolve() {
 				continue
 			}
 			assert(f.Implies(is, g))
+			if t.env {
+				envChosen = append(envChosen, is)
+			} else if !t.clock {
+				libEnabled = append(libEnabled, g)
+			}
 			if laxDelta != nil && t.clock && len(t.procs) == 1 && t.src[0].kind == opSleep && t.procs[0].sleep != nil {
 				// (preference used when a counterexample is minimised: a sleeper wakes
 				// exactly at its deadline, as it does under the replay's virtual clock)
@@ -664,6 +673,13 @@ func (b *bmcSys) unrollAndSolve() {
 				writes[b.panicVar] = append(writes[b.panicVar], wr{t.id, f.True()})
 			}
 		}
+		// (preference used when a counterexample is minimised: the environment moves
+		// only when no step involving a library goroutine is enabled - the library is
+		// prompt, as it is under the replay's scheduler where environment goroutines
+		// sit in timed waits)
+		if len(envChosen) > 0 && len(libEnabled) > 0 {
+			u.promptLib = append(u.promptLib, f.Implies(f.Or(envChosen...), f.Not(f.Or(libEnabled...))))
+		}
 		// partial-order constraint between step k-1 and k, only over transitions that
 		// can be enabled at those steps at all (guards not folded to false)
 		liveNow := map[int]bool{}
@@ -676,7 +692,7 @@ func (b *bmcSys) unrollAndSolve() {
 			u.pendingPOR = false
 			for _, pr := range u.indep {
 				if u.prevLive[pr[0]] && liveNow[pr[1]] {
-					assert(f.Not(f.And(f.Eq(u.sch[k-1], f.IntC(int64(pr[0]))), f.Eq(sch, f.IntC(int64(pr[1]))))))
+					assert(f.Implies(u.porOn, f.Not(f.And(f.Eq(u.sch[k-1], f.IntC(int64(pr[0]))), f.Eq(sch, f.IntC(int64(pr[1])))))))
 				}
 			}
 		}
@@ -734,7 +750,7 @@ func (b *bmcSys) unrollAndSolve() {
 	// completeness threshold: is a run with K non-stutter steps possible?
 	complete := false
 	for {
-		r, err := s.CheckWith(false, f.Not(f.Eq(u.sch[u.k-1], f.IntC(int64(u.stutter)))))
+		r, err := s.CheckWith(false, f.And(u.porOn, f.Not(f.Eq(u.sch[u.k-1], f.IntC(int64(u.stutter))))))
 		if err != nil || r == smt.Unknown {
 			b.res.Unknown = append(b.res.Unknown, fmt.Sprintf("unwinding query at K=%d: %v %v", u.k, r, err))
 			break
@@ -778,14 +794,14 @@ func (b *bmcSys) unrollAndSolve() {
 			return
 		}
 		if strings.HasPrefix(label, modelLimit) {
-			r, err := s.CheckWith(false, bad)
+			r, err := s.CheckWith(false, f.And(u.porOn, bad))
 			if err != nil || r != smt.Unsat {
 				b.res.Unsupported = append(b.res.Unsupported, fmt.Sprintf("%s (%v)", label, r))
 			}
 			return
 		}
 		bad = f.And(bad, f.Not(limitHit))
-		r, err := s.CheckWith(false, bad)
+		r, err := s.CheckWith(false, f.And(u.porOn, bad))
 		if err != nil || r == smt.Unknown {
 			b.res.Unknown = append(b.res.Unknown, fmt.Sprintf("property %s: %v %v", label, r, err))
 			return
@@ -802,7 +818,7 @@ func (b *bmcSys) unrollAndSolve() {
 				if mid >= u.k {
 					break
 				}
-				rr, e2 := s.CheckWith(false, f.And(bad, stops(mid)))
+				rr, e2 := s.CheckWith(false, f.And(u.porOn, bad, stops(mid)))
 				if e2 != nil || rr == smt.Unknown {
 					break
 				}
@@ -814,6 +830,19 @@ func (b *bmcSys) unrollAndSolve() {
 				}
 			}
 			bad = best
+			// (the preferences are about the order of independent steps, which the
+			// partial-order constraint fixes: they are tried with that constraint off -
+			// every linearisation of a violating run is a violating run of the same length)
+			havePOR := true
+			if len(u.promptLib) > 0 {
+				prompt := f.And(append([]*term.T{bad}, u.promptLib...)...)
+				rr, e2 := s.CheckWith(false, prompt)
+				b.logf("  minimise %s: prompt-library preference %v %v", label, rr, e2)
+				if e2 == nil && rr == smt.Sat {
+					bad = prompt
+					havePOR = false
+				}
+			}
 			if len(u.exactWake) > 0 {
 				exact := f.And(append([]*term.T{bad}, u.exactWake...)...)
 				if rr, e2 := s.CheckWith(false, exact); e2 == nil && rr == smt.Sat {
@@ -829,6 +858,9 @@ func (b *bmcSys) unrollAndSolve() {
 						break
 					}
 				}
+			}
+			if havePOR {
+				bad = f.And(u.porOn, bad)
 			}
 			r, err = s.CheckWith(true, bad)
 			if err != nil || r != smt.Sat {
@@ -853,7 +885,7 @@ func (b *bmcSys) unrollAndSolve() {
 		for _, bads := range u.finBad {
 			all = append(all, bads...)
 		}
-		r, err := s.CheckWith(false, f.Or(all...))
+		r, err := s.CheckWith(false, f.And(u.porOn, f.Or(all...)))
 		if err == nil && r == smt.Unsat {
 			goto witnesses
 		}
@@ -886,7 +918,7 @@ witnesses:
 	}
 	sort.Strings(cs)
 	for _, c := range cs {
-		r, err := s.CheckWith(false, u.cur[b.coverVars[c]])
+		r, err := s.CheckWith(false, f.And(u.porOn, u.cur[b.coverVars[c]]))
 		b.res.Witnesses[c] = r.String()
 		if err != nil || r != smt.Sat {
 			b.res.Unsupported = append(b.res.Unsupported, fmt.Sprintf("vacuity: cover %q not reachable within K=%d (%v) in config %v", c, u.k, r, b.setup.choiceLog))
